@@ -63,6 +63,7 @@ Definition run_case (c : list N) : list N :=
   | 3 :: i :: t => show_out show_bool (highlight_check t i)
   | 4 :: t => show_out (show_parse_text t) (parse_text t)
   | 5 :: t => S_ "ALL" ++ parse_all (S (length t)) t []
+  | 6 :: _ :: t => show_out (show_parse_text t) (parse_text t)
   | id :: _ =>
       if id <? 10 then S_ "BADCASE"
       else if id <? 30 then run_num c
